@@ -295,15 +295,18 @@ Definition de_txout (hr : bool) : sval -> res txout :=
     (fun '(a, b, c, d, e) => rbind (need a) (fun a => rbind (need b) (fun b => rbind (need c) (fun c => rbind (need d) (fun d =>
        rbind (need e) (fun e => Ok {| out_asset := a; out_value := b; out_nonce := c; out_script := d; out_wit := e |})))))).
 
-(* LockTime: serde_derive on `enum LockTime { Blocks(Height), Seconds(Time) }` with newtype structs Height(u32), Time(u32); the derived
-   Deserialize does not look at the threshold.  (Variant indices and single-entry CBOR maps, which serde_derive / serde_cbor also accept,
-   are not modelled.) *)
+(* LockTime: serde_derive on `enum LockTime { Blocks(Height), Seconds(Time) }`; Height(u32) / Time(u32) serialize as derived newtype structs and
+   deserialize through a hand-written impl with the derived wire format that ends in Height::from_consensus / Time::from_consensus
+   (src/locktime.rs impl_validated_newtype_deserialize!, the repair of finding F17), so the threshold is checked.
+   (Variant indices and single-entry CBOR maps, which serde_derive / serde_cbor also accept, are not modelled.) *)
 Definition ser_locktime (l : locktime) : sval :=
   match l with Blocks h => VVariant "LockTime"%lb "Blocks"%lb (VNewtype "Height"%lb (VU64 h))
              | Seconds t => VVariant "LockTime"%lb "Seconds"%lb (VNewtype "Time"%lb (VU64 t)) end.
+Definition de_height (v : sval) : res N := rbind (de_u u32_bound v) (fun n => if n <? C20_LOCK_TIME_THRESHOLD then Ok n else Err "notheight"%lb).
+Definition de_time (v : sval) : res N := rbind (de_u u32_bound v) (fun n => if C20_LOCK_TIME_THRESHOLD <=? n then Ok n else Err "nottime"%lb).
 Definition de_locktime (v : sval) : res locktime :=
-  let pick k x := if bytes_eqb k "Blocks"%lb then rbind (de_u u32_bound x) (fun n => Ok (Blocks n))
-                  else if bytes_eqb k "Seconds"%lb then rbind (de_u u32_bound x) (fun n => Ok (Seconds n)) else Err "variant"%lb in
+  let pick k x := if bytes_eqb k "Blocks"%lb then rbind (de_height x) (fun n => Ok (Blocks n))
+                  else if bytes_eqb k "Seconds"%lb then rbind (de_time x) (fun n => Ok (Seconds n)) else Err "variant"%lb in
   match v with
   | VMap [(VStr k, x)] => pick k x
   | VSeq [VStr k; x] => pick k x
